@@ -107,6 +107,8 @@ pub struct ConfigGen {
     pub max_width: usize,
     pub dom: Option<bool>,
     pub rub_none_only: bool,
+    /// only narrow fixed widths (1..=max_width): the search has to branch
+    pub narrow_only: bool,
 }
 
 pub fn config_strategy(g: ConfigGen) -> impl Strategy<Value = Config> {
@@ -119,12 +121,13 @@ pub fn config_strategy(g: ConfigGen) -> impl Strategy<Value = Config> {
         1 => FringeKind::NoDup,
         _ => FringeKind::TieShuffle(ch),
     });
+    let wide = if g.narrow_only { 0 } else { 1 };
     let width = prop_oneof![
         4 => (1..=maxw.min(2)).prop_map(WidthKind::Fixed),
         2 => (1..=maxw).prop_map(WidthKind::Fixed),
-        1 => Just(WidthKind::NbUnassigned),
+        wide => Just(WidthKind::NbUnassigned),
         1 => (0usize..=2, 0usize..=2).prop_map(|(k, w)| WidthKind::TimesFixed(k, w)),
-        1 => (1usize..=4).prop_map(WidthKind::DivByNbUnassigned),
+        wide => (1usize..=4).prop_map(WidthKind::DivByNbUnassigned),
     ];
     let rub_none_only = g.rub_none_only;
     let rub = (0u8..8, prop::collection::vec(prop::collection::vec(0isize..=3, BMAX), NMAX + 1)).prop_map(move |(k, s)| {
